@@ -319,8 +319,12 @@ def r14_8(run):
     if kwname is None:
         raise AnalysisError("set_user_pf_options no longer takes **kwargs")
     r = ANF(ix, f, param_alias={f.params()[0]: "net"}).run()
-    ups = [c for c in r.calls() if c.fn[0] == "attr" and c.fn[2] == "update" and (
-        (c.fn[1][0] == "idx" and c.fn[1][2] == (("c", "user_pf_options"),)) or (c.fn[1][0] == "attr" and c.fn[1][2] == "user_pf_options"))]
+    from ..arrnf import ite_leaves
+    def is_user_layer(t):
+        # net['user_pf_options'] (possibly the dict freshly stored there on one arm of the reset test)
+        return all(leaf[0] == "new" or (leaf[0] == "idx" and leaf[2] == (("c", "user_pf_options"),)) or
+                   (leaf[0] == "attr" and leaf[2] == "user_pf_options") for _, leaf in ite_leaves(t))
+    ups = [c for c in r.calls() if c.fn[0] == "attr" and c.fn[2] == "update" and is_user_layer(c.fn[1])]
     run.ob("set_user_pf_options|stores-the-given-options", len(ups) == 1 and ups[0].args == (("n", kwname),) and not ups[0].cond,
            "set_user_pf_options stores exactly the keyword arguments it was given", w, detail=tshow(ups[0].args[0])[:120] if ups and ups[0].args else None)
     interp = [c for c in r.calls() if c.fn[0] == "f" and any(a == ("n", kwname) or a == ("star", ("n", kwname)) for a in c.args + tuple(v for _, v in c.kw))]
